@@ -259,10 +259,10 @@ func (ni *NodeInfo) ConsolidateSharedPodInfoToDifferentGPU(ti *pod_info.PodInfo)
 // RestoreSharedPodInfoOnPreviousGPU is the reverse of ConsolidateSharedPodInfoToDifferentGPU, to be called after
 // the moved copy of the task was removed from the node: ConsolidateSharedPodInfoToDifferentGPU replaced the
 // entry of the task without removing the resources it holds on its previous GPU, so only the entry
-// (with the task's restored status and GPU groups) has to be put back.
+// (with the task's restored status and GPU groups) has to be put back. The pod affinity info is left alone:
+// the move added the pod a second time and removing the moved copy took that one out again.
 func (ni *NodeInfo) RestoreSharedPodInfoOnPreviousGPU(ti *pod_info.PodInfo) {
 	ni.PodInfos[pod_info.PodKey(ti.Pod)] = ti.Clone()
-	ni.PodAffinityInfo.AddPod(ti.Pod)
 }
 
 func (ni *NodeInfo) isGpuReleasingFromSharedTasks(gpuGroup string) bool {
